@@ -1,6 +1,133 @@
-(* C07 — placeholder while the pipeline is brought up *)
-From Coq Require Import ZArith.
-From Verif Require Import C07.Model.
-Theorem C07_placeholder : True.
-Proof. exact I. Qed.
-Print Assumptions C07_placeholder.
+(* C07 — numbers are never silently changed when decoded into another numeric type.
+   "Ok implies right": an error is always allowed, a wrong stored value never.
+   Only statements, closed by [exact]; the proofs are in C07/Proofs*.v and rest on the
+   definitions of Gen/Leaf.v, which are re-translated from /repo's source on every run.
+
+   Sources are the wire bytes of one item ([bytes_ok]: every element a byte); what they
+   mean is C07/Spec.v (written from the format specifications); destinations are the 13
+   kinds.  Integers are Z, floats IEEE bit patterns; [f64_scaled b = Some (x * 2^1074)]
+   says that the float64 with pattern b is finite and is exactly the integer x. *)
+From Coq Require Import List ZArith Bool Lia.
+From Verif Require Import Base.Word Base.Outcome Base.FBits Gen.Consts Gen.Leaf
+  C07.Model C07.Spec C07.ProofsLeaf C07.ProofsFrac C07.Proofs.
+Import ListNotations.
+Local Open Scope Z_scope.
+
+(* cbor, every integer item (both major types, every argument width, minimal or not, up to
+   2^64-1 and down to -2^64) into every integer destination kind: the stored value is the
+   item's value and lies in the kind's range *)
+Theorem C07_int_cbor : forall (k : kind) (bs : list Z) (x n : Z),
+  bytes_ok bs -> is_int_kind k = true ->
+  decode cbor k bs = Ok x -> cbor_spec bs = Some (NInt n) ->
+  x = n /\ kind_lo k <= x < kind_hi k.
+Proof. exact cbor_int_all. Qed.
+Print Assumptions C07_int_cbor.
+
+(* msgpack DecodeInt64 on every descriptor byte: integer families give exactly their value;
+   a float64 item is accepted only when it is an integer (|x| < 2^52) and then stored
+   exactly; anything that is not a number is rejected, nil gives 0.
+   partial: for float32 items only "noFrac32 holds and x is the truncation of the widened
+   value" is shown (value preservation of the float32->float64 widening is not proved) *)
+Theorem C07_int_frac_msgpack_int64_partial : forall (bd : Z) (r : list Z) (x : Z),
+  0 <= bd < 256 -> bytes_ok r -> mp_Int64 bd r = Ok x ->
+  match msgpack_spec (bd :: r) with
+  | Some (NInt n) => x = n /\ - 2 ^ 63 <= x < 2 ^ 63
+  | Some (NF64 b) => f64_scaled b = Some (x * 2 ^ 1074) /\ - 2 ^ 52 < x < 2 ^ 52
+  | Some (NF32 b) => noFrac32 b = true /\ x = f64_to_i64 (f32_to_f64 b)
+  | Some (NF16 _) => False
+  | None => bd = mpNil /\ x = 0
+  end.
+Proof. exact mp_Int64_ok. Qed.
+Print Assumptions C07_int_frac_msgpack_int64_partial.
+
+(* binc, cbor, simple: once the driver has read a sign and a 64-bit magnitude (decInteger),
+   DecodeInt64 stores exactly -(ui [+1 for cbor]) or ui, in the int64 range, and
+   DecodeUint64 accepts only non-negative values, unchanged.  (The translated
+   decNegintPosintFloatNumberHelperInt64v / chkOvf.Uint2Int are what is reasoned about.) *)
+Theorem C07_int_signmag : forall (ui : Z) (neg cb : bool) (fl : res (Z * bool)) (x : Z),
+  0 <= ui < 2 ^ 64 -> hlp_int64 ui neg true cb fl = Ok x ->
+  x = (if neg then - (ui + (if cb then 1 else 0)) else ui) /\ - 2 ^ 63 <= x < 2 ^ 63.
+Proof. exact hlp_int64_int. Qed.
+Print Assumptions C07_int_signmag.
+
+Theorem C07_uint_signmag : forall (ui : Z) (neg : bool) (fl : res (Z * bool)) (x : Z),
+  hlp_uint64 ui neg true fl = Ok x -> neg = false /\ x = ui.
+Proof. exact hlp_uint64_int. Qed.
+Print Assumptions C07_uint_signmag.
+
+(* the generic layer: narrowing a decoded int64/uint64 to 8/16/32/64 bits never changes it *)
+Theorem C07_narrow_int : forall (w v x : Z),
+  (w = 8 \/ w = 16 \/ w = 32 \/ w = 64) -> - 2 ^ 63 <= v < 2 ^ 63 ->
+  narrow_int w (Ok v) = Ok x -> x = v /\ - 2 ^ (w - 1) <= x < 2 ^ (w - 1).
+Proof. exact narrow_int_ok. Qed.
+Print Assumptions C07_narrow_int.
+
+Theorem C07_narrow_uint : forall (w v x : Z),
+  (w = 8 \/ w = 16 \/ w = 32 \/ w = 64) -> 0 <= v < 2 ^ 64 ->
+  narrow_uint w (Ok v) = Ok x -> x = v /\ 0 <= x < 2 ^ w.
+Proof. exact narrow_uint_ok. Qed.
+Print Assumptions C07_narrow_uint.
+
+(* a stream float goes into an integer only when it has no fraction and fits:
+   the translated noFrac64 accepts exactly integers of magnitude < 2^52, and the
+   truncating conversions then return that integer *)
+Theorem C07_frac_nofrac64 : forall f : Z,
+  0 <= f < 2 ^ 64 -> noFrac64 f = true ->
+  exists z, f64_scaled f = Some (z * 2 ^ 1074) /\ f64_to_i64 f = z /\ - 2 ^ 52 < z < 2 ^ 52
+            /\ (f < 2 ^ 63 -> f64_to_u64 f = z /\ 0 <= z).
+Proof. exact noFrac64_int. Qed.
+Print Assumptions C07_frac_nofrac64.
+
+(* binc, cbor, simple: a float64 value f produced by the driver's decFloat reaches an
+   int64/uint64 destination only as the integer it exactly is *)
+Theorem C07_frac_int64 : forall (ui : Z) (neg cb : bool) (f : Z) (fok : bool) (x : Z),
+  0 <= f < 2 ^ 64 -> hlp_int64 ui neg false cb (Ok (f, fok)) = Ok x ->
+  fok = true /\ f64_scaled f = Some (x * 2 ^ 1074) /\ - 2 ^ 52 < x < 2 ^ 52.
+Proof. exact hlp_int64_frac. Qed.
+Print Assumptions C07_frac_int64.
+
+Theorem C07_frac_uint64 : forall (ui : Z) (neg : bool) (f : Z) (fok : bool) (x : Z),
+  0 <= f < 2 ^ 64 -> hlp_uint64 ui neg false (Ok (f, fok)) = Ok x ->
+  fok = true /\ f64_scaled f = Some (x * 2 ^ 1074) /\ 0 <= x < 2 ^ 52.
+Proof. exact hlp_uint64_frac. Qed.
+Print Assumptions C07_frac_uint64.
+
+(* float64 -> float32 (DecodeFloat32 of the binary drivers): the stored float32 is the
+   rounding of the decoded float64, and a finite value above MaxFloat32 is an error.
+   partial: that [f64_to_f32] is exact on representable values / within one ulp is
+   checked by correspondence and the math/big oracle only *)
+Theorem C07_float32_overflow_partial : forall (f x : Z),
+  0 <= f < 2 ^ 64 -> narrow_f32 (Ok f) = Ok x ->
+  x = f64_to_f32 f /\ (f64_finite f = true -> f64_abs f <= f64_maxf32).
+Proof. exact narrow_f32_ok. Qed.
+Print Assumptions C07_float32_overflow_partial.
+
+(* non-vacuity *)
+Example C07_int_cbor_nonvacuous :
+  decode cbor KInt64 [27; 127; 255; 255; 255; 255; 255; 255; 255] = Ok (2 ^ 63 - 1)
+  /\ cbor_spec [27; 127; 255; 255; 255; 255; 255; 255; 255] = Some (NInt (2 ^ 63 - 1))
+  /\ decode cbor KInt64 [59; 127; 255; 255; 255; 255; 255; 255; 255] = Ok (- 2 ^ 63)
+  /\ decode cbor KInt64 [27; 128; 0; 0; 0; 0; 0; 0; 5] = Err EOverflow      (* F07-1 *)
+  /\ decode cbor KInt64 [59; 255; 255; 255; 255; 255; 255; 255; 255] = Err EOverflow  (* F07-2 *)
+  /\ decode cbor KUint8 [24; 255] = Ok 255 /\ decode cbor KUint8 [25; 1; 0] = Err EOverflow
+  /\ decode cbor KInt8 [56; 127] = Ok (-128) /\ decode cbor KInt8 [56; 128] = Err EOverflow.
+Proof. vm_compute. repeat apply conj; reflexivity. Qed.
+
+Example C07_msgpack_nonvacuous :
+  mp_Int64 207 [255; 255; 255; 255; 255; 255; 255; 255] = Err EOverflow       (* F07-3 *)
+  /\ mp_Int64 203 [67; 47; 255; 255; 255; 255; 255; 254] = Ok (2 ^ 52 - 1)   (* float64 4503599627370495 *)
+  /\ mp_Int64 203 [63; 248; 0; 0; 0; 0; 0; 0] = Err EOther                   (* 1.5 *)
+  /\ mp_Int64 211 [128; 0; 0; 0; 0; 0; 0; 0] = Ok (- 2 ^ 63).
+Proof. vm_compute. repeat apply conj; reflexivity. Qed.
+
+Example C07_frac_nonvacuous :
+  noFrac64 4607182418800017408 = true /\ f64_scaled 4607182418800017408 = Some (1 * 2 ^ 1074)  (* 1.0 *)
+  /\ noFrac64 4609434218613702656 = false                                                       (* 1.5 *)
+  /\ noFrac64 13830554455654793216 = true /\ f64_to_i64 13830554455654793216 = -1.             (* -1.0 *)
+Proof. vm_compute. repeat apply conj; reflexivity. Qed.
+
+Example C07_float32_nonvacuous :
+  narrow_f32 (Ok 5183643170566569984) = Ok 2139095039           (* MaxFloat32 stays MaxFloat32 *)
+  /\ narrow_f32 (Ok 5183643170566569985) = Err EOverflow        (* the next float64 up is an error *)
+  /\ narrow_f32 (Ok f64_inf) = Ok f32_inf.
+Proof. vm_compute. repeat apply conj; reflexivity. Qed.
